@@ -22,6 +22,7 @@ import (
 	"context"
 	"errors"
 	"os"
+	"reflect"
 	"runtime"
 	"strconv"
 	"strings"
@@ -36,6 +37,104 @@ func (e *dErr) Error() string { return "error of function " + strconv.Itoa(e.i) 
 type vErr struct{ i int }
 
 func (e vErr) Error() string { return "value error of function " + strconv.Itoa(e.i) }
+
+// ---- error values of other dynamic types (hardening round 5) ----
+// Which error Do returns, and that it returns at all, must not depend on what kind of value the
+// error is. Validation / multi errors are commonly slices, maps or structs with a slice field:
+// values of these types are NOT comparable (== on two interface values that both hold one panics at
+// run time); a func type is not comparable either; boxErr is a comparable struct type whose
+// comparison panics when the error inside is not comparable. The "tagged" kinds carry the tag of
+// the model (re) so that the driver can tell which function's error came back without ==.
+
+type tagged interface{ errTag() int }
+
+type fieldErrs []string
+
+func (e fieldErrs) Error() string { return "invalid fields: " + strings.Join(e, ", ") }
+func (e fieldErrs) errTag() int   { k, _ := strconv.Atoi(e[0]); return k }
+
+type mapErr map[string]int
+
+func (e mapErr) Error() string { return "errors by key (" + strconv.Itoa(len(e)) + ")" }
+func (e mapErr) errTag() int   { return e["tag"] }
+
+type multiErr struct {
+	t    int
+	errs []error
+}
+
+func (e multiErr) Error() string { return strconv.Itoa(len(e.errs)) + " errors occurred" }
+func (e multiErr) errTag() int   { return e.t }
+
+type boxErr struct{ inner error }
+
+func (e boxErr) Error() string { return "boxed: " + e.inner.Error() }
+func (e boxErr) Unwrap() error { return e.inner }
+func (e boxErr) errTag() int   { return e.inner.(tagged).errTag() }
+
+type funcErr func() string
+
+func (e funcErr) Error() string { return "lazy error " + e() }
+func (e funcErr) errTag() int   { k, _ := strconv.Atoi(e()); return k }
+
+// npErr: a pointer error type whose methods accept the nil pointer; (*npErr)(nil) stored in an
+// error is a NON-nil error (the classic typed nil): the function failed and Do must report it.
+type npErr struct{ msg string }
+
+func (e *npErr) Error() string {
+	if e == nil {
+		return "nil *npErr"
+	}
+	return e.msg
+}
+
+var errSentinel = errors.New("shared sentinel error")
+
+// mkErr builds the error with tag t (t = re of the model, 1..) for function i under the error
+// policy named in the class of the case ("errs-…"; none = the original four comparable kinds).
+func mkErr(policy string, i, t int, pick int) error {
+	kind := policy
+	if policy == "errs-uncmp-mixed" {
+		kind = []string{"errs-slice", "errs-map", "errs-multi", "errs-boxed", "errs-func"}[pick%5]
+	}
+	switch kind {
+	case "errs-slice", "errs-same-slice":
+		return fieldErrs{strconv.Itoa(t), "name", "age"}
+	case "errs-map":
+		return mapErr{"tag": t, "other": 1}
+	case "errs-multi":
+		return multiErr{t, []error{errors.New("a"), errors.New("b")}}
+	case "errs-boxed":
+		return boxErr{fieldErrs{strconv.Itoa(t)}}
+	case "errs-func":
+		return funcErr(func() string { return strconv.Itoa(t) })
+	case "errs-sentinel":
+		return errSentinel
+	case "errs-nilptr":
+		return (*npErr)(nil)
+	}
+	// errors of different dynamic types, one of them wrapping context.Canceled
+	switch i % 4 {
+	case 0:
+		return &dErr{i}
+	case 1:
+		return errors.New("plain error of function " + strconv.Itoa(i))
+	case 2:
+		return fmt.Errorf("function %d gave up: %w", i, context.Canceled)
+	}
+	return vErr{i}
+}
+
+// sameErr: is a the error value b? Never compares two values of a type that is not comparable.
+func sameErr(a, b error) bool {
+	if reflect.TypeOf(a) != reflect.TypeOf(b) {
+		return false
+	}
+	if ta, ok := a.(tagged); ok {
+		return ta.errTag() == b.(tagged).errTag()
+	}
+	return a == b
+}
 
 type op struct {
 	send bool
@@ -338,7 +437,9 @@ func main() {
 	w := bufio.NewWriter(os.Stdout)
 	defer w.Flush()
 	deadlocks := 0
+	lineNo := -1
 	for sc.Scan() {
+		lineNo++
 		parts := strings.SplitN(sc.Text(), "|", 5)
 		procs, _ := strconv.Atoi(parts[0])
 		var rank []int
@@ -364,23 +465,24 @@ func main() {
 			}
 		}
 		errs := make([]error, n)
+		policy := ""
+		for _, wd := range strings.Fields(class) {
+			if strings.HasPrefix(wd, "errs-") {
+				policy = wd
+			}
+		}
+		// functions with the same tag return the SAME error value (a shared sentinel)
+		byTag := map[int]error{}
 		var finished int32
 		fns := make([]func() (int, error), n)
 		for i := range fs {
 			i := i
-			if fs[i].re != 0 {
-				// errors of different dynamic types, one of them wrapping context.Canceled: which error Do
-				// returns, and that it returns one, must not depend on what kind of error it is
-				switch i % 4 {
-				case 0:
-					errs[i] = &dErr{i}
-				case 1:
-					errs[i] = errors.New("plain error of function " + strconv.Itoa(i))
-				case 2:
-					errs[i] = fmt.Errorf("function %d gave up: %w", i, context.Canceled)
-				default:
-					errs[i] = vErr{i}
+			if t := fs[i].re; t != 0 {
+				// which error Do returns, and that it returns one, must not depend on what kind of error it is
+				if _, ok := byTag[t]; !ok {
+					byTag[t] = mkErr(policy, i, t, lineNo+i)
 				}
+				errs[i] = byTag[t]
 			}
 			fns[i] = func() (int, error) {
 				for _, o := range fs[i].ops {
@@ -425,9 +527,9 @@ func main() {
 			e := 0
 			if r.err != nil {
 				e = 99
-				for j := range errs {
-					if errs[j] != nil && r.err == errs[j] {
-						e = j + 1
+				for t, x := range byTag {
+					if sameErr(r.err, x) {
+						e = t
 					}
 				}
 			}
